@@ -1,11 +1,12 @@
 package main
 
 // Operator-instance re-use: the ops.Operator interface lets one initialised operator be applied repeatedly. The cases of one
-// (operator, attributes, input ranks, input dtypes) group are applied, in turn, to ONE instance that is looked up and
+// (operator, attributes, input dtypes) group are applied, in turn, to ONE instance that is looked up and
 // initialised once; each application must still give the outcome the specification allows for that case. This exposes
 // attribute or shape state that leaks from one Apply into the next.
 
 import (
+	"crypto/sha1"
 	"encoding/json"
 	"fmt"
 	"sort"
@@ -17,24 +18,69 @@ import (
 type reuseItem struct {
 	c    *Case
 	text string
+	h    string // sha1 of the text: the deterministic order of a group
 }
 
 type reusePass struct {
 	groups map[string][]reuseItem
-	n      int
 }
 
 type reuseVerdict struct {
 	prop, text, verdict string
 }
 
-const reuseMaxCases = 60000
-const reuseMaxPerGroup = 40
+const reuseMaxPerGroup = 2000 // cases retained per group (the smallest hashes)
+
+// pick orders a group deterministically (by case text) and interleaves the input-rank signatures, so that one instance sees
+// inputs of different ranks and extents early.
+func pick(items []reuseItem) []reuseItem {
+	sig := func(c *Case) string {
+		s := ""
+		for _, t := range c.Inputs {
+			s += fmt.Sprintf("%d,", len(t.Shape))
+		}
+		return s
+	}
+	buckets := map[string][]reuseItem{}
+	for _, it := range items {
+		if it.c == nil {
+			continue
+		}
+		k := sig(it.c)
+		buckets[k] = append(buckets[k], it)
+	}
+	keys := make([]string, 0, len(buckets))
+	for k := range buckets {
+		keys = append(keys, k)
+		b := buckets[k]
+		sort.Slice(b, func(i, j int) bool { return b[i].h < b[j].h })
+	}
+	sort.Strings(keys)
+	reuseApplications := 64 + len(items)/4 // applications of the one instance
+	if len(items) > reuseMaxPerGroup {
+		sort.Slice(items, func(i, j int) bool { return items[i].h < items[j].h })
+		items = items[:reuseMaxPerGroup]
+	}
+	var out []reuseItem
+	for i := 0; len(out) < reuseApplications; i++ {
+		any := false
+		for _, k := range keys {
+			if i < len(buckets[k]) && len(out) < reuseApplications {
+				out = append(out, buckets[k][i])
+				any = true
+			}
+		}
+		if !any {
+			break
+		}
+	}
+	return out
+}
 
 func newReusePass() *reusePass { return &reusePass{groups: map[string][]reuseItem{}} }
 
 func (r *reusePass) add(c *Case, text string) {
-	if c.Kind != "op" || r.n >= reuseMaxCases || c.Allowed.Must == "no_crash" {
+	if c.Kind != "op" || c.Allowed.Must == "no_crash" {
 		return
 	}
 	a, _ := json.Marshal(c.Attrs)
@@ -43,14 +89,20 @@ func (r *reusePass) add(c *Case, text string) {
 		if t.Nil {
 			key += "nil,"
 		} else {
-			key += fmt.Sprintf("%s%d,", t.Dt, len(t.Shape))
+			key += t.Dt + "," // ranks and extents may differ between applications: ONNX allows a node to see inputs of unknown rank
 		}
 	}
-	if len(r.groups[key]) >= reuseMaxPerGroup {
-		return
+	h := sha1.Sum([]byte(text))
+	g := append(r.groups[key], reuseItem{c, text, string(h[:])})
+	if len(g) >= 2*reuseMaxPerGroup {
+		// keep the reuseMaxPerGroup smallest hashes: the retained set does not depend on the arrival order
+		sort.Slice(g, func(i, j int) bool { return g[i].h < g[j].h })
+		for i := reuseMaxPerGroup; i < len(g); i++ {
+			g[i] = reuseItem{}
+		}
+		g = g[:reuseMaxPerGroup]
 	}
-	r.groups[key] = append(r.groups[key], reuseItem{c, text})
-	r.n++
+	r.groups[key] = g
 }
 
 func (r *reusePass) run() []reuseVerdict {
@@ -61,7 +113,7 @@ func (r *reusePass) run() []reuseVerdict {
 	}
 	sort.Strings(keys)
 	for _, k := range keys {
-		items := r.groups[k]
+		items := pick(r.groups[k])
 		if len(items) < 2 {
 			continue
 		}
